@@ -10,6 +10,7 @@ python3 harness/gen/gen_family.py Reg10 szlhshzslh shz harness/hcore/src/gen_reg
 python3 harness/gen/gen_family.py Reg8 szlhshzs shz harness/hcore/src/gen_reg8.rs
 python3 harness/gen/gen_queries.py harness/hcore/src/gen_queries.rs
 python3 harness/gen/gen_sched.py harness/src/gen_sched.rs
+python3 harness/gen/gen_ctor.py harness/src/gen_ctor.rs
 [ -f harness/Cargo.lock ] || cp /repo/Cargo.lock harness/Cargo.lock
 (cd harness && cargo build --offline)
 (cd lean && lake build BroodModel driver)
